@@ -130,6 +130,40 @@ impl Scenario for Nogood {
     }
 
     fn generate(&self, rng: &mut Rng, thorough: bool) -> NogoodCase {
+        if rng.chance(1, if thorough { 1500 } else { 3000 }) {
+            // many statements: 65-72, all facts except an even loop at the front and possibly one
+            // at the back — models that differ only in statements beyond the 64th from the end
+            let n = *rng.pick(&[65usize, 66, 70, 72]);
+            let names: Vec<String> = (0..n).map(|i| format!("s{i}")).collect();
+            let back_loop = rng.chance(1, 2);
+            // loops sit on an even index and its successor (members refer to each other by i ^ 1)
+            let b = (n - 2) & !1usize;
+            let acs = (0..n)
+                .map(|i| {
+                    if i < 2 || (back_loop && (i == b || i == b + 1)) {
+                        refsem::F::Not(Box::new(refsem::F::Atom(i ^ 1)))
+                    } else if (i * 7 + n) % 3 == 0 {
+                        refsem::F::Bot
+                    } else {
+                        refsem::F::Top
+                    }
+                })
+                .collect();
+            let spec = AdfSpec { names, acs, ac_order: (0..n).collect() };
+            let heu = match rng.below(4) {
+                0 => Heu::Simple,
+                1 => Heu::Rand(rng.bytes32()),
+                2 => Heu::MinModMaxVarImpMinPaths,
+                _ => Heu::Adversary,
+            };
+            let entry = match rng.below(4) {
+                0 => Entry::Iterator,
+                1 => Entry::StableChannel,
+                2 => Entry::TwoValChannel,
+                _ => Entry::TwoCalls,
+            };
+            return NogoodCase { spec, build: if rng.chance(1, 3) { Build::Bridged } else { Build::Native }, heu, entry, chan: Chan::Unbounded, adf_outlives_consumer: rng.chance(1, 2) };
+        }
         if rng.chance(1, if thorough { 3000 } else { 12000 }) {
             // many models: k independent even loops a_i = neg(b_i), b_i = neg(a_i) have 2^k
             // stable models (= two-valued models); more than 128 from k = 8
@@ -218,9 +252,43 @@ impl Scenario for Nogood {
         crossbeam_channel::sim_reset_ids();
         let mut stats = Stats::default();
         let n = case.spec.n();
-        let self_support = n > 7 && case.spec.acs.iter().enumerate().all(|(i, f)| *f == refsem::F::Atom(i));
-        let even_loops = n > 7 && n % 2 == 0 && case.spec.acs.iter().enumerate().all(|(i, f)| *f == refsem::F::Not(Box::new(refsem::F::Atom(i ^ 1))));
-        let (want_stable, want_two, grounded_has_und) = if even_loops {
+        let self_support = n > 7 && n <= 60 && case.spec.acs.iter().enumerate().all(|(i, f)| *f == refsem::F::Atom(i));
+        // every condition is a fact or the negation of its aligned partner, whose condition is
+        // the negation of this statement
+        let facts_family = n > 60
+            && case.spec.acs.iter().enumerate().all(|(i, f)| match f {
+                refsem::F::Top | refsem::F::Bot => true,
+                refsem::F::Not(inner) => (i ^ 1) < n && **inner == refsem::F::Atom(i ^ 1) && case.spec.acs[i ^ 1] == refsem::F::Not(Box::new(refsem::F::Atom(i))),
+                _ => false,
+            });
+        let even_loops = !facts_family && n > 7 && n % 2 == 0 && case.spec.acs.iter().enumerate().all(|(i, f)| *f == refsem::F::Not(Box::new(refsem::F::Atom(i ^ 1))));
+        if n > 7 && !facts_family && !even_loops && !self_support {
+            // a large instance outside the families with closed-form answers (can only come from
+            // a shrinking candidate): there is no oracle for it, so it shows nothing
+            return RunResult { violation: None, decisions: dec.values(), signature: 0, log_hash: 0, nontrivial: false, stats };
+        }
+        let (want_stable, want_two, grounded_has_und) = if facts_family {
+            // closed form: facts are what they say; of each even loop exactly one member is true
+            let is_loop = |i: usize| matches!(case.spec.acs[i], refsem::F::Not(_));
+            let loops: Vec<usize> = (0..n).filter(|i| is_loop(*i) && i % 2 == 0).collect();
+            let all: Vec<Interp> = (0..(1u32 << loops.len()))
+                .map(|w| {
+                    (0..n)
+                        .map(|s| {
+                            if is_loop(s) {
+                                let k = loops.iter().position(|l| *l == (s & !1)).unwrap();
+                                if ((w >> k) & 1 == 1) == (s % 2 == 0) { V::T } else { V::F }
+                            } else if case.spec.acs[s] == refsem::F::Top {
+                                V::T
+                            } else {
+                                V::F
+                            }
+                        })
+                        .collect()
+                })
+                .collect();
+            (all.clone(), all, true)
+        } else if even_loops {
             // closed form: one of each pair is true, the other false; all of them are stable
             let k = n / 2;
             let all: Vec<Interp> = (0..(1u32 << k))
@@ -268,7 +336,7 @@ impl Scenario for Nogood {
                 // large structured family gets ten times that instead of the flat budget because
                 // its iterations are slow (linear scan of thousands of learned nogoods)
                 let n = case.spec.n();
-                adf_bdd::verif::arm(if n > 7 { 30 * (1u64 << n) } else { TICK_BUDGET });
+                adf_bdd::verif::arm(if n > 60 { TICK_BUDGET } else if n > 7 { 30 * (1u64 << n) } else { TICK_BUDGET });
                 let _fin = Fin(solver_out);
                 let mut adf = match build_adf(&case.spec, case.build) {
                     Ok(a) => a,
